@@ -1,7 +1,7 @@
 (* C11 -- overlay disk state matches the live view across restart; copy-up preserves files.
    Only statements, closed by [exact]; proofs live in Proofs/Overlay*.v. *)
 From Coq Require Import List String NArith Bool.
-From FB Require Import Model.Overlay Proofs.OverlayInv Proofs.OverlayScan Proofs.OverlayRestart Proofs.OverlayCopyUp Proofs.OverlayReadOnly Proofs.OverlayCoh Proofs.OverlayCohView Proofs.OverlayCohOps.
+From FB Require Import Model.Overlay Proofs.OverlayInv Proofs.OverlayScan Proofs.OverlayRestart Proofs.OverlayCopyUp Proofs.OverlayReadOnly Proofs.OverlayCoh Proofs.OverlayCohView Proofs.OverlayCohOps Proofs.OverlayCohSteps.
 Import ListNotations.
 Local Open Scope string_scope.
 Local Open Scope N_scope.
@@ -38,7 +38,7 @@ Proof. exact restart_partial. Qed.
 Theorem C11_coherent_restart : forall s, Coherent s -> oteq (view (load_all (restart s))) (view (load_all s)).
 Proof. exact coherent_restart. Qed.
 (* ... hence for all layer contents and all histories over the operations of [coh_op]
-   (the read-only ones and MKDIR, with or without tree walks in between): *)
+   (the read-only ones, MKDIR, CREATE, MKNOD, SYMLINK, UNLINK; with or without tree walks in between): *)
 Theorem C11_restart_partial_mkdir : forall u ls nx ops, Forall layer_ok (u :: ls) -> coh_history ops = true ->
   let s := run_dumps ops (load_all (fresh (Some u) ls nx)) in
   oteq (view (load_all (restart s))) (view (load_all s)).
